@@ -1,6 +1,7 @@
 import GodiProofs.Collection.Reach
 import GodiProofs.Collection.Reject
 import GodiProofs.Collection.Views
+import GodiProofs.Collection.Accept
 /-!
 # C17 — the collection is an exact, atomic registry and Build takes a snapshot
 
@@ -114,11 +115,20 @@ theorem C17_accept_appends (cs : List Call) (r : Req) (c' : Coll)
     (h : addService (after cs) r = (c', none)) : ∃ news, c'.reg.all = (after cs).reg.all ++ news :=
   (addService_spec' _ r (reachable_inv cs) c' none h).2.1 rfl
 
+/-- … and what it appends is exactly what the call asked for: one descriptor per output of the
+fan-out, in order, with the requested type, group and constructor, under the requested key when it
+is a service (a group member gets its running number). -/
+theorem C17_accept_exact (cs : List Call) (op : String) (items : List Item)
+    (hk : ∀ it ∈ items, it.d.key.isIdx = false) (h : (registerEach op (after cs) items).2 = none) :
+    ∃ news, (registerEach op (after cs) items).1.reg.all = (after cs).reg.all ++ news ∧
+      news.map Desc.sig = items.map (fun it => it.d.sig) ∧
+      ∀ p ∈ news.zip items, svcPath p.2.d → p.1.key = p.2.d.key :=
+  registerEach_accepts op items _ (reachable_inv cs) hk h
+
 /-- The FULL clause "the removed registration has no effect on later builds": nothing that is still
 registered stores an output under an identity other than the registration currently holding it.
 FALSE for the code as it is (finding D25): see `C17_counterexample_removed_sibling`. -/
-def NoGhost (reg : Registry) : Prop :=
-  ∀ d ∈ reg, ∀ s ∈ d.stores, (lookup reg (s.1, s.2.1)).map (·.ctor) = some d.ctor
+def NoGhost (reg : Registry) : Prop := NoGhostWith storeOuts reg
 
 def C17_remove_effective_statement : Prop := ∀ cs : List Call, NoGhost (after cs).reg.all
 
@@ -160,7 +170,7 @@ def witnessD25 : List Call :=
 theorem C17_counterexample_removed_sibling : ¬ C17_remove_effective_statement := by
   intro h
   have := h witnessD25
-  unfold NoGhost at this
+  unfold NoGhost NoGhostWith at this
   revert this
   decide
 
